@@ -16,7 +16,7 @@ import itertools
 
 import z3
 
-from .values import (SArr, SBag, SExc, SFunc, SObj, SSeq, SSlice, SStr, Unsupported, coerce2,
+from .values import (SArr, SBag, SExc, SFunc, SObj, SOpt, SSeq, SSlice, SStr, Unsupported, coerce2,
                      concrete, is_bool, is_intlike, is_num, is_reallike, is_z3, num_term, snap,
                      snap_finite, to_bool, to_z3)
 
@@ -144,6 +144,8 @@ def _clone(v, memo):
         return o
     if isinstance(v, tuple):
         return tuple(_clone(x, memo) for x in v)
+    if isinstance(v, SOpt):
+        return SOpt(_clone(v.value, memo), v.none_if)
     if isinstance(v, SwapStore):
         if id(v) in memo:
             return memo[id(v)]
@@ -759,6 +761,9 @@ class Executor:
                         and getattr(objs[0][1], 'none_if', None) is None:
                     o = objs[0][1]
                     return SObj(o.cls, dict(o.fields), none_if=z3.simplify(z3.Or(*nones)))
+                arrs = [(c, v) for c, v in vals if isinstance(v, SArr)]
+                if len(nones) + len(arrs) == len(vals) and len(arrs) == 1 and nones:
+                    return SOpt(arrs[0][1], z3.simplify(z3.Or(*nones)))
                 raise Unsupported('non-scalar value merged over the branches of a loop body')
             for cond, avals, lvals, ps in reversed(paths):
                 v = (avals if kind == 'a' else lvals)[nm]
@@ -1220,7 +1225,7 @@ class Executor:
 
     def compare(self, op, a, b, st):
         if isinstance(op, (ast.Is, ast.IsNot)):
-            if (a is None or b is None) and isinstance(b if a is None else a, SObj) \
+            if (a is None or b is None) and isinstance(b if a is None else a, (SObj, SOpt)) \
                     and getattr(b if a is None else a, 'none_if', None) is not None:
                 cond = (b if a is None else a).none_if
                 return z3.Not(cond) if isinstance(op, ast.IsNot) else cond
@@ -1317,6 +1322,7 @@ class Executor:
         return out
 
     def getattr(self, v, attr, st, node=None):
+        v = self.unwrap(v, st, f'attribute {attr}')
         if isinstance(v, SObj) and getattr(v, 'none_if', None) is not None and not self.cl_mode:
             st.check(f'attribute {attr} of a value that may be None', z3.Not(v.none_if))
         if isinstance(v, SObj):
@@ -1408,6 +1414,7 @@ class Executor:
             if isinstance(s, tuple):
                 out.append((s, None))
                 continue
+            v = self.unwrap(v, s, 'subscript')
             if isinstance(v, (SArr,)):
                 idx = self.eval_index(node.slice, s)
                 out.append((s, self.index_arr(v, idx, s)))
@@ -1419,10 +1426,18 @@ class Executor:
                 out.append((s2, self.subscript(v, k, s2)))
         return out
 
+    def unwrap(self, v, st, what):
+        """The value of an optional (SOpt); using it where it may be None is an obligation."""
+        if isinstance(v, SOpt):
+            if not self.cl_mode:
+                st.check(f'{what} of a value that may be None', z3.Not(v.none_if))
+            return v.value
+        return v
+
     def eval_index(self, node, st):
         if isinstance(node, ast.Tuple):
-            return tuple(self.eval1(e, st) for e in node.elts)
-        v = self.eval1(node, st)
+            return tuple(self.unwrap(self.eval1(e, st), st, 'index') for e in node.elts)
+        v = self.unwrap(self.eval1(node, st), st, 'index')
         if isinstance(v, tuple):
             return v
         return (v,)
